@@ -515,6 +515,21 @@ func systematicPkgCases(id *int, profile, scratch string, rng *rand.Rand, tier s
 			c.Entries = []Entry{plain, first, {Type: "file", Src: "src/app.conf", Dst: "/opt/demo/current/conf/app.conf"}, {Type: "dir", Dst: "/opt/demo/current/data"}}
 			add(c, smallTree(), "beneath-non-directory")
 		}
+		// a custom control field that names the size the packager computes itself: the package states the computed one
+		for _, big := range []bool{false, true} {
+			c := baseCfg("sizefield")
+			c.IpkFields = []KV2{{"Installed-Size", "999"}, {"Source", "feeds/x"}}
+			c.Entries = []Entry{plain}
+			if big {
+				c.Entries = append(c.Entries, Entry{Type: "tree", Src: "src/sub", Dst: "/usr/share/sizefield"}, Entry{Type: "file", Src: "src/big", Dst: "/usr/share/sizefield/big"})
+			}
+			nodes := smallTree()
+			if big {
+				b := bytes.Repeat([]byte("0123456789abcdef"), 300)
+				nodes = append(nodes, Node{P: "src/big", Kind: "file", Mode: 0o644, Mt: 1500000000, Size: len(b), data: b, Cid: cidOf(b)})
+			}
+			add(c, nodes, "custom-installed-size")
+		}
 		// a tree / a directory at the root itself (a root file system overlay)
 		for _, e := range [][]Entry{{{Type: "tree", Src: "src/sub", Dst: "/"}}, {{Type: "dir", Dst: "/", Fi: Fi{Mode: 0o755}, HasFi: true}, {Type: "file", Src: "src/bin", Dst: "/tool"}}} {
 			c := baseCfg("rootfspkg")
